@@ -11,7 +11,7 @@ import (
 // ignores, mis-combines or short-cuts one limb is only visible on a pair of values that differ in that limb ALONE.
 // LimbNearMisses(v, m) returns values v' != v below m whose stored representation v'*2^256 mod m differs from that of v
 //   - in exactly one limb j (by +1, by the top bit, by all bits), for every j;
-//   - in two limbs whose differences cancel under addition (+1 in one, -1 in the other),
+//   - in two limbs whose differences cancel under addition (+1 in one, -1 in the other) or under XOR (the same bit),
 //
 // and the same for the canonical (plain integer) representation. Labels say which.
 func LimbNearMisses(v, m *big.Int) []Val {
@@ -55,6 +55,14 @@ func LimbNearMisses(v, m *big.Int) []Val {
 			emit(fmt.Sprintf("%s limb %d - 1", dom, j), setLimb(T, j, new(big.Int).Add(l, mask))) // -1 mod 2^64
 			emit(fmt.Sprintf("%s limb %d top bit flipped", dom, j), setLimb(T, j, new(big.Int).Xor(l, new(big.Int).Lsh(big.NewInt(1), 63))))
 			emit(fmt.Sprintf("%s limb %d all bits flipped", dom, j), setLimb(T, j, new(big.Int).Xor(l, mask)))
+			for k := j + 1; k < 4; k++ { // the SAME bit flipped in two limbs: the differences cancel under XOR
+				for _, bit := range []uint{0, 63} {
+					m := new(big.Int).Lsh(big.NewInt(1), bit)
+					t2 := setLimb(T, j, new(big.Int).Xor(l, m))
+					t2 = setLimb(t2, k, new(big.Int).Xor(limb(T, k), m))
+					emit(fmt.Sprintf("%s limbs %d and %d with bit %d flipped in both (differences cancel under XOR)", dom, j, k, bit), t2)
+				}
+			}
 			for k := 0; k < 4; k++ {
 				if k == j {
 					continue
